@@ -339,7 +339,33 @@ class World:
 KIND = ["forward", "backward", "recursive"]
 
 
+class _Stuck(BaseException):
+    pass
+
+
+def _alarm(signum, frame):
+    raise _Stuck()
+
+
 def execute(case):
+    """Runs the case under a 30 s alarm: every call made here is O(nodes) on a graph of at most a few dozen nodes, so a
+    call that is still running after 30 s is an iteration or accessor that does not terminate (a violation of "well
+    defined"), not slowness."""
+    import signal
+
+    old = signal.signal(signal.SIGALRM, _alarm)
+    signal.alarm(30)
+    try:
+        return _execute(case)
+    except _Stuck:
+        return dict(failures=[("no-termination", "a graph iteration / accessor call did not return within 30 s on a graph of a few dozen nodes")],
+                    nontrivial=True, classes=["stuck"])
+    finally:
+        signal.alarm(0)
+        signal.signal(signal.SIGALRM, old)
+
+
+def _execute(case):
     try:
         w = World(case)
         ops = case["ops"]
